@@ -336,6 +336,11 @@ func VH_Migrate(a []int) {
 		}
 	}
 	w.apiSets = []*apps.StatefulSet{set}
+	if len(a) > 1 && a[1] == 1 {
+		// one write to a revision (label sync or adoption) may fail once
+		w.faultBudget, w.faultKinds = 1, 2
+		w.faultOnly = []string{"rev.update", "rev.patch"}[sym.Pick("faultAt", 2)]
+	}
 	ssc := vNewController(w)
 	key := vNS + "/" + vSetName
 	for round := 0; round < 4; round++ {
